@@ -11,9 +11,12 @@ PROP = "C13"
 NAMES = ["n1", "n2", "n3"]
 
 SCRIPT = """
+tasks = {}
+
 @service
 def run_{c}(pid=None, steps=None):
     vreg(pid)
+    tasks[pid] = task.current_task()
     vrec('begin', pid)
     for i in range(len(steps)):
         st = steps[i]
@@ -24,6 +27,11 @@ def run_{c}(pid=None, steps=None):
             task.sleep(st[1])
         elif st[0] == 'raise':
             raise ValueError('boom')
+        elif st[0] == 'cancel':
+            try:
+                task.cancel(tasks[st[1]])
+            except (KeyError, TypeError):
+                pass
         vrec('done', pid, i)
     vrec('end', pid)
 
@@ -38,17 +46,23 @@ def deco_{c}(pid=None, dur=None, **kw):
 
 
 def gen(R):
-    n = R.int(2, 5)
+    n = R.int(3, 5)
     tasks = []
     same_instant = R.bool(1, 3)
     for k in range(n):
         steps = []
         for _ in range(R.int(1, 4)):
-            kind = R.weighted([(5, "unique"), (4, "sleep"), (1, "raise")])
+            kind = R.weighted([(5, "unique"), (4, "sleep"), (1, "raise"), (2, "cancel"), (2, "cancel_kill_me")])
             if kind == "unique":
                 steps.append(["unique", R.choice(NAMES), R.bool(1, 3)])
             elif kind == "sleep":
                 steps.append(["sleep", R.choice([1.0, 2.0, 5.0])])
+            elif kind == "cancel":
+                steps.append(["cancel", f"p{R.choice([x for x in range(n) if x != k])}"])  # never the own task (delivery instant differs)
+            elif kind == "cancel_kill_me":
+                # the reaper is busy with another request when the caller loses a kill_me contest
+                steps.append(["cancel", f"p{R.choice([x for x in range(n) if x != k])}"])
+                steps.append(["unique", R.choice(NAMES), True])
             else:
                 steps.append(["raise"])
         if not any(s[0] == "sleep" for s in steps):
@@ -57,6 +71,12 @@ def gen(R):
         off = 0.0 if same_instant and R.bool() else round(0.01 * (k + 1), 2)
         deco = R.bool(1, 8)
         tasks.append({"pid": f"p{k}", "ctx": R.choice(["a", "a", "b"]), "start": start + off, "steps": steps, "deco": deco, "dur": R.choice([2.0, 5.0])})
+    if R.bool(1, 4):
+        # structured burst: one live owner of a name and two or more tasks that claim it in the same loop instant
+        name, ctx, at = R.choice(NAMES), R.choice(["a", "b"]), float(R.int(1, 3))
+        tasks[0].update(ctx=ctx, start=0.0, steps=[["unique", name, False], ["sleep", 5.0]] + tasks[0]["steps"][:1], deco=False)
+        for k in range(1, min(n, R.int(3, 5))):
+            tasks[k].update(ctx=ctx, start=at, steps=[["unique", name, R.bool(1, 5)], ["sleep", R.choice([2.0, 5.0])]] + tasks[k]["steps"][:1], deco=False)
     outside = []
     if R.bool(1, 3):
         outside.append({"at": float(R.int(1, 7)) + 0.5, "ctx": R.choice(["a", "b"]), "name": R.choice(NAMES), "kill_me": R.bool(1, 3)})
@@ -99,6 +119,7 @@ def exact_model(case):
             continue
         ctx = tasks[p]["ctx"]
         steps = tasks[p]["steps"]
+        pending = []
         while st["alive"] and st["i"] < len(steps):
             s = steps[st["i"]]
             if not s[0] == "sleep" or not st.get("sleeping"):
@@ -111,7 +132,7 @@ def exact_model(case):
                         kill(p)
                         break
                 elif cur is not None and cur != p:
-                    kill(cur)
+                    pending.append(cur)  # cancelled by the reaper once the caller suspends; its other names stay until then
                 owner[key] = p
             elif s[0] == "sleep":
                 if not st.get("sleeping"):
@@ -122,6 +143,12 @@ def exact_model(case):
                     heapq.heappush(events, (t + s[1], seq, p))
                     break
                 st["sleeping"] = False
+            elif s[0] == "cancel":
+                # task.cancel(other) is delivered by the reaper once the caller suspends or ends: until then the
+                # target is still a live owner of its names
+                tgt = s[1]
+                if tgt in state and tgt != p and tasks[tgt]["ctx"] == ctx:
+                    pending.append(tgt)
             elif s[0] == "raise":
                 st["alive"] = False
                 st["log"].append("raised")
@@ -130,6 +157,9 @@ def exact_model(case):
                 break
             st["log"].append(f"done{st['i']}")
             st["i"] += 1
+        for tgt in pending:
+            if state[tgt]["alive"] and tgt != p:
+                kill(tgt)
         if st["alive"] and st["i"] >= len(steps):
             st["log"].append("end")
             st["alive"] = False
